@@ -103,6 +103,13 @@ Online(cfg, c) ==
                   \cup { Scn("online", c, << Dev(c, q, "output wire shares", 0, MBit(<< r, 1 >>, b)) >>, "victims", {q}, "output share MAC") : b \in Bits } :
                   r \in UniqueOutRegs(circ) } : q \in { p \in Others : InPo(cfg, p) } }
   \cup
+  \* an authenticated share LEFT OUT (None in its slot): nothing verifies, so nothing may be used
+  UNION { { Scn("online", c, << Dev(c, q, "wire shares", 0, MPath("ToNone", << r >>)) >>, "victims", {q}, "input share omitted") :
+              r \in InputRegsOf(circ, q) } : q \in Others }
+  \cup
+  UNION { { Scn("online", c, << Dev(c, q, "output wire shares", 0, MPath("ToNone", << r >>)) >>, "victims", {q}, "output share omitted") :
+              r \in UniqueOutRegs(circ) } : q \in { p \in Others : InPo(cfg, p) } }
+  \cup
   \* the same alteration at TWO positions of one message (aggregated checks must not let them cancel)
   UNION { UNION { { Scn("online", c, << Dev(c, q, "wire shares", 0, MPath("Flip", << pr[1], 0 >>)), Dev(c, q, "wire shares", 0, MPath("Flip", << pr[2], 0 >>)) >>,
                 "victims", {q}, "two input share bits"),
